@@ -64,7 +64,8 @@ class Lin:
             names = self.b.callees_of_call(st, passed=False)
             if any(n.endswith(("::checked_add", "::wrapping_add", "::saturating_add")) for n in names):
                 return add(self.op(st["args"][0], depth + 1), self.op(st["args"][1], depth + 1))
-            if any(n.endswith(("Try::branch", "Try>::branch", "From>::from", "From::from", "Into>::into", "Into::into")) for n in names):
+            if any(n.endswith(("Try::branch", "Try>::branch", "From>::from", "From::from", "Into>::into", "Into::into", "Option::unwrap", "Option::expect",
+                               "Result::unwrap", "Result::expect")) for n in names):
                 return self.op(st["args"][0], depth + 1)       # value-preserving wrappers (`?`, newtype conversions)
             for n in sorted(names):
                 for pat, sym in getattr(self, "opaque", {}).items():
